@@ -938,6 +938,9 @@ func (obj *Package) GetFunc(name string) (fi *FuncInfo) {
 	obj.mu.Lock()
 	fi = obj.funcs[name]
 	obj.mu.Unlock()
+	if fi != nil && fi.Doc == nil { // placeholder for a forward reference, not a definition
+		fi = nil
+	}
 	return
 }
 
